@@ -627,7 +627,7 @@ def check_chain(pid):
         c.validate("chain", "TraceChain", "TraceChain.cfg", tr, rule="random stores (<=6 principals, mixed key algorithms, "
                    "chains <=6, 0..2 deviations) judged by TraceChain", cfg_constants=dict(Prop=pid))
         if pid in ("C01", "C05"):
-            c.mc("MC_Authority", "MC_Authority.cfg", dict(MaxStore=2, MaxLen=2, Deviations="{}"), timeout=1500,
+            c.mc("MC_Authority", "MC_Authority.cfg", dict(MaxStore=2, MaxLen=2, Deviations="{}", Cmds="A_Cmds2" if q else "A_Cmds"), timeout=1500,
                  label="system level: NoEscalation / Exercisable against the least fixpoint of held authority, store of <=2 of 432 delegations")
             tr = c.drive("authority", 150 if q else 1500)
             c.validate("authority", "TraceAuthority", "TraceAuthority.cfg", tr, cfg_constants=dict(Prop=pid),
